@@ -945,12 +945,12 @@ static void led_add(void *p, size_t size, int kind)
     ENGINE_FATAL("ledger full");
 }
 
-static ledent *led_find(void *p)
+static ledent *led_find(void *p, int kindmask)
 {
     uint64_t h = abtmc_mix(0x99, (uint64_t)(uintptr_t)p) & (LEDMAX - 1);
     for (int i = 0; i < LEDMAX; i++) {
         ledent *e = &led[(h + i) & (LEDMAX - 1)];
-        if (e->ptr == p)
+        if (e->ptr == p && (e->kind & kindmask))
             return e;
         if (e->ptr == NULL)
             return NULL;
@@ -960,8 +960,8 @@ static ledent *led_find(void *p)
 
 static int led_del(void *p, int kind)
 {
-    ledent *e = led_find(p);
-    if (!e || !(e->kind & kind))
+    ledent *e = led_find(p, kind);
+    if (!e)
         return 0;
     led_live--;
     led_live_bytes -= e->size;
@@ -1084,8 +1084,8 @@ void abtmc_free(void *p)
     }
     if (!p)
         return;
-    ledent *e = led_find(p);
-    if (!e || !(e->kind & ABTMC_R_MALLOC)) {
+    ledent *e = led_find(p, ABTMC_R_MALLOC);
+    if (!e) {
         led_badfree++;
         finishf(ABTMC_ST_VIOLATION, "bad_free",
                 "libabt freed %p which is not a live block it allocated "
@@ -1113,8 +1113,8 @@ int abtmc_munmap(void *p, size_t n)
 {
     if (!abtmc_g.active)
         return munmap(p, n);
-    ledent *e = led_find(p);
-    if (!e || e->kind != ABTMC_R_MMAP || e->size != n) {
+    ledent *e = led_find(p, ABTMC_R_MMAP);
+    if (!e || e->size != n) {
         led_badfree++;
         finishf(ABTMC_ST_VIOLATION, "bad_munmap",
                 "libabt munmap(%p,%zu) does not match a live mapping", p, n);
